@@ -214,3 +214,19 @@ Theorem C10_source_chunk_casts :
   transmute_of "GenericArray::into_chunks" = Some ("transmute", "chunks") /\
   transmute_of "GenericArray::into_chunks_mut" = Some ("transmute", "chunks").
 Proof. repeat split. Qed.
+
+(* ---- T1: the one-expression bodies this property's code consists of besides the modelled core, as they stand
+        in the source now (coq/gen/GenSigs.v gen_thin_bodies) ---- *)
+From Coq Require Import String.
+From GA Require Import SigTie.
+From GAGen Require Import GenSigs.
+Local Open Scope string_scope.
+
+Theorem C10_source_thin_bodies :
+  thin_of "GenericArray<T,N>" "slice_from_chunks" = Some "unsafe { slice :: from_raw_parts (slice . as_ptr () as * const T , slice . len () * N :: USIZE) }" /\
+  thin_of "GenericArray<T,N>" "slice_from_chunks_mut" = Some "unsafe { slice :: from_raw_parts_mut (slice . as_mut_ptr () as * mut T , slice . len () * N :: USIZE) }" /\
+  thin_of "GenericArray<T,N>" "from_chunks" = Some "unsafe { mem :: transmute (chunks) }" /\
+  thin_of "GenericArray<T,N>" "from_chunks_mut" = Some "unsafe { mem :: transmute (chunks) }" /\
+  thin_of "GenericArray<T,N>" "into_chunks" = Some "unsafe { mem :: transmute (chunks) }" /\
+  thin_of "GenericArray<T,N>" "into_chunks_mut" = Some "unsafe { mem :: transmute (chunks) }".
+Proof. repeat split. Qed.
